@@ -458,7 +458,7 @@ ARITH_TYPES = ["bool", "char", "signed char", "unsigned char", "wchar_t", "char1
                "float", "double", "long double", "int8_t", "uint8_t", "int16_t", "uint16_t", "int32_t", "uint32_t",
                "int64_t", "uint64_t", "size_t", "ptrdiff_t"]
 DUR_REPS = ["int8_t", "uint8_t", "int16_t", "uint16_t", "int32_t", "uint32_t", "int64_t", "uint64_t", "float",
-            "double", "long double", "long long", "unsigned long long", "int"]
+            "double", "long double", "long long", "unsigned long long", "int", "short", "unsigned int", "long", "unsigned long"]
 STD_PERIODS = [(1, 10 ** 9), (1, 10 ** 6), (1, 1000), (1, 1), (60, 1), (3600, 1), (86400, 1), (604800, 1), (2629746, 1),
                (31556952, 1), (1, 3), (7, 5), (2, 4), (1, 10 ** 18), (10 ** 18, 1)]
 
@@ -538,6 +538,8 @@ MATRIX_TMPL = r'''
 #include <type_traits>
 #include <utility>
 #include "au/au.hh"
+@UNIT_INCLUDES@
+@UNIT_PRE@
 template <class...> struct c19_make_void { using type = void; };
 template <class... Ts> using c19_void_t = typename c19_make_void<Ts...>::type;
 using ZRef = const au::Zero&;                     // the type of the expression `au::ZERO`
@@ -566,21 +568,61 @@ template <class R, long long N, long long D> static void dur_row(const char* nam
     printf("M dur %s num=%lld den=%lld pnum=%lld pden=%lld", name, N, D, (long long)Dur::period::num, (long long)Dur::period::den);
     desc<R>(); flags<Dur>();
 }
+// Point grid: for a (unit, rep), whether ZERO is accepted at every kind of site that requires a QuantityPoint (all must be 0),
+// at the two Diff slots of the point's operator+ (must be 1), and at the same site kinds for the Quantity (must be 1).
+#define C19_DETECT(NAME, EXPR) \
+    template <class PT, class = void> struct NAME : std::false_type {}; \
+    template <class PT> struct NAME<PT, c19_void_t<decltype(EXPR)>> : std::true_type {};
+#define C19_P std::declval<PT&>()
+#define C19_Z std::declval<ZRef>()
+C19_DETECT(PEq, C19_P == C19_Z) C19_DETECT(PNe, C19_P != C19_Z) C19_DETECT(PLt, C19_P < C19_Z)
+C19_DETECT(PLe, C19_P <= C19_Z) C19_DETECT(PGt, C19_P > C19_Z) C19_DETECT(PGe, C19_P >= C19_Z)
+C19_DETECT(ZEq, C19_Z == C19_P) C19_DETECT(ZNe, C19_Z != C19_P) C19_DETECT(ZLt, C19_Z < C19_P)
+C19_DETECT(ZLe, C19_Z <= C19_P) C19_DETECT(ZGt, C19_Z > C19_P) C19_DETECT(ZGe, C19_Z >= C19_P)
+C19_DETECT(ZSub, C19_Z - C19_P) C19_DETECT(PSub, C19_P - C19_Z) C19_DETECT(PAdd, C19_P + C19_Z) C19_DETECT(ZAdd, C19_Z + C19_P)
+C19_DETECT(ListAssign, C19_P = {C19_Z})
+template <class T> static void site_flags() {
+    printf(" copyInit=%d directInit=%d braceInit=%d assign=%d argument=%d returnValue=%d staticCast=%d listAssign=%d",
+           int(std::is_convertible<ZRef, T>::value), int(std::is_constructible<T, ZRef>::value), int(CanBrace<T>::value),
+           int(std::is_assignable<T&, ZRef>::value), int(CanPass<T>::value), int(std::is_convertible<ZRef, T>::value),
+           int(CanCast<T>::value), int(ListAssign<T>::value));
+}
+template <class T> static void op_flags() {
+    printf(" eq=%d ne=%d lt=%d le=%d gt=%d ge=%d zeq=%d zne=%d zlt=%d zle=%d zgt=%d zge=%d zsub=%d psub=%d padd=%d zadd=%d",
+           int(PEq<T>::value), int(PNe<T>::value), int(PLt<T>::value), int(PLe<T>::value), int(PGt<T>::value), int(PGe<T>::value),
+           int(ZEq<T>::value), int(ZNe<T>::value), int(ZLt<T>::value), int(ZLe<T>::value), int(ZGt<T>::value), int(ZGe<T>::value),
+           int(ZSub<T>::value), int(PSub<T>::value), int(PAdd<T>::value), int(ZAdd<T>::value));
+}
+template <class U, class R> static void point_row(int ui, const char* rep) {
+    printf("M point %d %s", ui, rep); site_flags<au::QuantityPoint<U, R>>(); op_flags<au::QuantityPoint<U, R>>(); printf("\n");
+    printf("M qty %d %s", ui, rep); site_flags<au::Quantity<U, R>>(); op_flags<au::Quantity<U, R>>(); printf("\n");
+}
 int main() {
 @ROWS@
     return 0;
 }
 '''
 
+# further arithmetic spellings that exist only under some standards: (type, feature-test macro)
+OPTIONAL_ARITH = [("char8_t", "__cpp_char8_t")]
+
 
 def tname(t):
     return t.replace(" ", "_")
 
 
-def write_matrix(path, periods):
+def write_matrix(path, periods, punits=()):
+    """punits: [(unit index, unit dict)] for the point grid (x all 11 reps)."""
     rows = [f'    arith_row<{t}>("{tname(t)}");' for t in ARITH_TYPES]
+    for t, macro in OPTIONAL_ARITH:
+        rows.append(f'#ifdef {macro}\n    arith_row<{t}>("{tname(t)}");\n#endif')
     rows += [f'    dur_row<{r}, {n}LL, {d}LL>("{tname(r)}");' for r in DUR_REPS for (n, d) in periods]
-    open(path, "w").write(MATRIX_TMPL.replace("@ROWS@", "\n".join(rows)))
+    for ui, u in punits:
+        for r in REPS:
+            rows.append(f'    point_row<{u["expr"]}, {CTYPE[r]}>({ui}, "{r}");')
+    inc = "\n".join(f'#include "{h}"' for h in unit_headers()) if punits else ""
+    pre = "".join(u.get("pre", "") for _, u in punits)
+    open(path, "w").write(MATRIX_TMPL.replace("@ROWS@", "\n".join(rows)).replace("@UNIT_INCLUDES@", inc).replace("@UNIT_PRE@", pre))
 
 
 def write_harness(wd, units, insts, periods, nchunks=16, arith_types=None, dur_targets=None):
@@ -604,7 +646,8 @@ def write_harness(wd, units, insts, periods, nchunks=16, arith_types=None, dur_t
         files.append(p)
     body = []
     for t in (ARITH_TYPES if arith_types is None else arith_types):
-        body.append(f'    arith_line<{t}>("{tname(t)}");')
+        macro = dict(OPTIONAL_ARITH).get(t)
+        body.append((f"#ifdef {macro}\n" if macro else "") + f'    arith_line<{t}>("{tname(t)}");' + ("\n#endif" if macro else ""))
     for (r, n, d) in ([(r, n, d) for r in DUR_REPS for (n, d) in periods] if dur_targets is None else dur_targets):
         body.append(f'    dur_line<{r}, {n}LL, {d}LL>("{tname(r)}");')
     p = os.path.join(wd, "main.cc")
